@@ -27,17 +27,26 @@ func (x Expr) BracketString() string {
 // the expanded buffer.
 func (x Expr) Append(buf []byte, brackets ...bool) []byte {
 	bracket := 0 < len(brackets) && brackets[0]
+	afterDescent := false
 	for i, frag := range x {
 		if _, ok := frag.(Bracket); ok {
 			bracket = true
 			continue
 		}
+		start := len(buf)
 		buf = frag.Append(buf, bracket, i == 0)
-	}
-	if 0 < len(x) {
-		if _, ok := x[len(x)-1].(Descent); ok {
-			buf = append(buf, '.')
+		if afterDescent && !bracket && start < len(buf) && buf[start] != '.' {
+			// A descent is written as a single '.' and relies on the next
+			// fragment to start with the second one, add it for fragments
+			// that start with a '['.
+			buf = append(buf, 0)
+			copy(buf[start+1:], buf[start:])
+			buf[start] = '.'
 		}
+		_, afterDescent = frag.(Descent)
+	}
+	if afterDescent && !bracket {
+		buf = append(buf, '.')
 	}
 	return buf
 }
